@@ -276,13 +276,14 @@ Definition run_op (st : rstate) (g : list str) : option (rstate * str) :=
                 end
             | _ => None
             end
-          else if str_eqb op (k1 100) then         (* d *)
+          else if str_eqb op (k1 100) || str_eqb op (k1 108) then   (* d ; l = d whose LastIndex read fails *)
             match args with
             | [mn; mx] =>
                 match hex_to_N mn, hex_to_N mx with
                 | Some mn, Some mx =>
-                    let ok := fst (node_delete (node_at (rs_sys st) n) mn mx) in
-                    Some (settle 3 (do_ev st (HDelete n mn mx)) n, if ok then s_ok else s_er)
+                    let lf := str_eqb op (k1 108) in
+                    let ok := fst (node_delete (node_at (rs_sys st) n) mn mx lf) in
+                    Some (settle 3 (do_ev st (HDelete n mn mx lf)) n, if ok then s_ok else s_er)
                 | _, _ => None
                 end
             | _ => None
